@@ -272,7 +272,64 @@ def gen_sched(rng, tier):
             ops.append(dict(op="add", channel=nm, protocol=proto,
                             pulse=dict(amp=amp, det=dict(k="const", d=d, v=rng.choice([0.0, 0.0, -3.0])),
                                        phase=phase, post=0.0)))
-    return dict(kind="seq", device=dev, register=reg, maps=[], ops=ops)
+    return dict(kind="seq", device=dev, register=reg, maps=[], ops=ops, ext_extra=rng.choice([None, None, None, 0, 100]))
+
+
+
+def gen_eomseq(rng, tier):
+    """one channel alternating standard-mode and EOM-mode segments: 0, 1, 2+
+    EOM blocks, the first one at t=0 or later, ending on a pulse or a delay,
+    in or out of EOM mode, sampled with and without extended_duration"""
+    c = rng.choice([1, 1, 4])
+    spec = dict(id="ch0", kind="Rydberg", addressing="Global", clock_period=c, min_duration=rng.choice([1, 4, 16]),
+                max_duration=10**8, mod_bandwidth=rng.choice([4.0, 8.0, 8.0, 20.0]),
+                custom_phase_jump_time=rng.choice([None, None, 0]), max_amp=None, max_abs_detuning=None, min_avg_amp=0,
+                eom=dict(mod_bandwidth=rng.choice([40.0, 24.0, 60.0]), custom_buffer_time=rng.choice([None, None, 37]),
+                         limiting_beam="RED", controlled_beams=["BLUE"], multiple_beam_control=True))
+    chans = [spec]
+    ops = [dict(op="declare", name="a", channel_id="ch0")]
+    if rng.random() < 0.3:
+        chans.append(dict(id="ch1", kind="Raman", addressing="Global", clock_period=1, min_duration=1, max_duration=10**8,
+                          mod_bandwidth=rng.choice([None, 8.0]), max_amp=None, max_abs_detuning=None, min_avg_amp=0))
+        ops.append(dict(op="declare", name="b", channel_id="ch1"))
+
+    def dur(lo=1, hi=60):
+        return c * rng.randint(max(lo, -(-spec["min_duration"] // c)), hi)
+
+    eom_first = rng.random() < 0.5
+    nseg = rng.choice([1, 2, 3, 3, 4, 5])
+    for k in range(nseg):
+        eom = (k % 2 == 0) == eom_first
+        last = k == nseg - 1
+        if eom:
+            ops.append(dict(op="enable_eom", channel="a", amp_on=rng.choice([1.0, 2.0, 5.0]), det_on=0.0, opt_off=0.0))
+            for _ in range(rng.choice([1, 1, 2, 3])):
+                if rng.random() < 0.2:
+                    ops.append(dict(op="delay", channel="a", duration=dur(1, 30)))
+                else:
+                    ops.append(dict(op="add_eom", channel="a", duration=dur(4, 60), phase=rng.choice([0.0, 0.0, 1.0]), protocol=0))
+            if not last or rng.random() < 0.5:
+                ops.append(dict(op="disable_eom", channel="a"))
+        else:
+            for _ in range(rng.choice([1, 1, 2])):
+                d = dur(4, 80)
+                amp = rng.choice([dict(k="const", d=d, v=rng.choice([1.0, 2.0, 5.0])),
+                                  dict(k="ramp", d=max(d, 2), a=rng.choice([0.0, 3.0]), b=rng.choice([2.0, 8.0]))])
+                d = wf_dur(amp)
+                ops.append(dict(op="add", channel="a", protocol=0,
+                                pulse=dict(amp=amp, det=dict(k="const", d=d, v=rng.choice([0.0, -2.0])),
+                                           phase=rng.choice([0.0, 0.0, 1.0]), post=0.0)))
+                if rng.random() < 0.25:
+                    ops.append(dict(op="delay", channel="a", duration=dur(1, 30)))
+        if len(chans) > 1 and rng.random() < 0.3:
+            d = rng.randint(10, 120)
+            ops.append(dict(op="add", channel="b", protocol=rng.choice([0, 1]),
+                            pulse=dict(amp=dict(k="const", d=d, v=1.0), det=dict(k="const", d=d, v=0.0), phase=0.0, post=0.0)))
+    if rng.random() < 0.3:
+        ops.append(dict(op="delay", channel="a", duration=dur(1, 40)))
+    return dict(kind="seq", device=dict(channels=chans, dmms=[], max_sequence_duration=None, reusable=True, slm=False),
+                register=dict(ids=["q0", "q1"], coords=[[0.0, 0.0], [10.0, 0.0]]), maps=[], ops=ops,
+                ext_extra=rng.choice([None, None, 0, 7, 50, 300]))
 
 
 
@@ -564,6 +621,35 @@ def align_oracle(seq, op, case, upto):
 
 
 
+def reference_mod_amp(ch, amp, blocks, cut):
+    """Expected modulated amplitude of a channel, from the raw samples and the
+    documented rule, without pulser.sampler.samples: outside EOM mode the
+    output is the amplitude with the EOM blocks blanked, filtered with the
+    channel bandwidth; inside an EOM block and for two EOM rise times after
+    it (and beyond the end of the samples if they end there) it is the whole
+    amplitude filtered with the EOM bandwidth.  Channel.modulate is the
+    function tied to the Coq model by the 'mod' cases.  blocks: [(ti, tf|None)]"""
+    amp = np.asarray(amp, dtype=float)
+    d = len(amp)
+    if not blocks:
+        return L.arr(ch.modulate(amp))[:cut]
+    etr = int(ch.eom_config.rise_time)
+    std_in = amp.copy()
+    in_eom = np.zeros(d, dtype=bool)
+    for ti, tf in blocks:
+        end = tf if tf else d
+        std_in[ti:(tf if tf is not None else d)] = 0.0
+        in_eom[ti:end + 2 * etr] = True
+    m_std = L.arr(ch.modulate(std_in))
+    m_eom = L.arr(ch.modulate(amp, eom=True))
+    n = max(len(m_std), len(m_eom))
+    sel = np.concatenate([in_eom, np.full(n - d, in_eom[-1])])
+    a = np.concatenate([m_std, np.zeros(n - len(m_std))])
+    b = np.concatenate([m_eom, np.zeros(n - len(m_eom))])
+    return np.where(sel, b, a)[:cut]
+
+
+
 def run_seq(case):
     viols = []
 
@@ -601,6 +687,45 @@ def run_seq(case):
         run["whole_exc"] = repr(e)[:200]
     if run["plain"] != 0:
         return run, viols
+    # --- values of the modulated amplitude against the independent reference,
+    #     without and (when the case asks for it) with extended_duration
+    if whole is not None:
+        variants = [(None, whole)]
+        if case.get("ext_extra") is not None:
+            ext = int(seq.get_duration(include_fall_time=True)) + int(case["ext_extra"])
+            if ext > 0:
+                variants.append((ext, sample(seq, modulation=True, extended_duration=ext)))
+        plain_s = sample(seq)
+        for ext, res in variants:
+            for name, cs in seq._schedule.items():
+                ch = cs.channel_obj
+                a0 = L.arr(plain_s.channel_samples[name].amp)
+                if not ch.mod_bandwidth or len(a0) == 0 or not np.all(np.isfinite(a0)):
+                    continue
+                blocks = [(int(b.ti), None if b.tf is None else int(b.tf)) for b in cs.eom_blocks]
+                if ext is not None:
+                    a0 = np.concatenate([a0, np.zeros(ext - len(a0))])
+                    cut = ext
+                else:
+                    cut = int(cs.get_duration(include_fall_time=True))
+                got = L.arr(res.channel_samples[name].amp)
+                for key in ("amp", "det", "phase"):
+                    if ext is not None and len(getattr(res.channel_samples[name], key)) != ext:
+                        bad("modulated-length:extended",
+                            f"channel {name!r}: with extended_duration={ext} the {key} array has length "
+                            f"{len(getattr(res.channel_samples[name], key))}")
+                exp = reference_mod_amp(ch, a0, blocks, cut)
+                peak = max(1.0, float(np.max(np.abs(a0))))
+                if len(got) != len(exp):
+                    if ext is not None:
+                        bad("sampled-amplitude", f"channel {name!r}: {len(got)} samples, reference has {len(exp)} (extended_duration={ext})")
+                    continue  # without extension the length clauses below report it
+                dev = float(np.max(np.abs(got - exp))) if len(exp) else 0.0
+                if dev > L.REL * peak:
+                    k = int(np.argmax(np.abs(got - exp)))
+                    bad("sampled-amplitude",
+                        f"channel {name!r} ({len(blocks)} EOM block(s) {blocks}, extended_duration={ext}): modulated amplitude "
+                        f"differs from the reference by {dev:g} at t={k} (got {got[k]:g}, expected {exp[k]:g})")
     for name, cs in seq._schedule.items():
         info = chan_info(cs)
         ch = cs.channel_obj
@@ -779,8 +904,10 @@ class C14(PropCheck):
             return gen_mod(rng, tier)
         if r < 0.62:
             return gen_wf(rng, tier)
-        if r < 0.82:
+        if r < 0.76:
             return gen_seq(rng, tier)
+        if r < 0.88:
+            return gen_eomseq(rng, tier)
         return gen_sched(rng, tier)
 
     def run_impl(self, case):
